@@ -37,7 +37,7 @@ class _FakeDgramTransport(FakeAsyncioTransport):
         self.write(data)
 
 
-def flow(senders: int, K: int, final: str, msglen: int = 2, prefix: list = (), target: str = "stream", api: str = "all"):
+def flow(senders: int, K: int, final: str, msglen: int = 2, prefix: list = (), target: str = "stream", api: str = "all", nopause: bool = False, empty_from: int = 99):
     """target: stream | dgram-endpoint | dgram-listener (the two asyncio datagram protocols share WriteFlowControl; they keep
     asyncio's default write-buffer limits, so the harness lowers the fake transport's high-water mark to 1 byte to park senders)"""
 
@@ -45,9 +45,26 @@ def flow(senders: int, K: int, final: str, msglen: int = 2, prefix: list = (), t
         with loop_context() as loop:
             be = backend()
             if target == "stream":
-                p = StreamReaderBufferedProtocol(loop=loop)
-                tr = FakeAsyncioTransport(loop, p)
-                p.connection_made(tr)
+                if nopause:
+                    # a transport that cannot pause reading (NotImplementedError): once the read buffer passes its high-water mark
+                    # the protocol forgets the transport for reading purposes - the write side must be unaffected
+                    class _P(StreamReaderBufferedProtocol):
+                        max_size = 4096
+
+                    p = _P(loop=loop)
+                    tr = FakeAsyncioTransport(loop, p)
+
+                    def _cannot_pause():
+                        raise NotImplementedError
+
+                    tr.pause_reading = _cannot_pause
+                    p.connection_made(tr)
+                    incoming = p.get_buffer(-1)
+                    p.buffer_updated(len(incoming))
+                else:
+                    p = StreamReaderBufferedProtocol(loop=loop)
+                    tr = FakeAsyncioTransport(loop, p)
+                    p.connection_made(tr)
                 adapter = AsyncioTransportStreamSocketAdapter(be, tr, p)
                 high_after_init = tr.high
                 if api == "iter":  # the other entry point of the adapter: send_all_from_iterable (writelines)
@@ -104,12 +121,13 @@ def flow(senders: int, K: int, final: str, msglen: int = 2, prefix: list = (), t
 
             async def sender(i):
                 rec = info[i]
-                data = bytes([97 + i]) * msglen
+                mlen = 0 if i >= empty_from else msglen  # empty datagrams are legitimate payloads
+                data = bytes([97 + i]) * mlen
                 try:
                     # offsets are assigned when the bytes are given to the transport (write() is synchronous in send_all)
-                    rec["end"] = st["written"] + msglen if not tr.force_closed and not tr.conn_lost else None
+                    rec["end"] = st["written"] + mlen if not tr.force_closed and not tr.conn_lost else None
                     if rec["end"] is not None:
-                        st["written"] += msglen
+                        st["written"] += mlen
                     await adapter.send_all(data)
                     rec["state"] = "returned"
                     rec["handed_at_return"] = handed()
@@ -253,4 +271,10 @@ def shards(tier: str):
                 if final == "resume" and pre == 4:
                     continue
                 add(f"flow-{target}/{final}/s2/K{K}/pre{pre}", dict(senders=2, K=K, final=final, prefix=[pre], target=target), cost=5 ** (K - 1))
+                if target == "dgram-endpoint" and final == "lose-exc":
+                    # the second sender's payload is an empty datagram: it goes through the same flow control
+                    add(f"flow-{target}-empty/{final}/s2/K{K}/pre{pre}", dict(senders=2, K=K, final=final, prefix=[pre], target=target, empty_from=1), cost=5 ** (K - 1))
+    for pre in range(5):
+        # stream transport that cannot pause reading, read buffer already past its high-water mark
+        add(f"flow-nopause/lose-exc/s2/K{K}/pre{pre}", dict(senders=2, K=K, final="lose-exc", prefix=[pre], nopause=True), cost=5 ** (K - 1))
     return out
